@@ -146,7 +146,7 @@ def run(ctx):
     lib.account_tlc(ctx, r_emit)
 
     # the replay runs while TLC is still busy with the theorems
-    real = 4 if ctx.quick() else 48
+    real = 4 if ctx.quick() else 80
     res = execute(ctx, bindir, cases, table, real, timeout=3000 if ctx.quick() else 12000)
     t_th.join()
     check_errors()
